@@ -698,6 +698,33 @@ func runC07(c *fw.Case) {
 				}
 			}
 		}
+		{
+			// the option holds the context, not a picture of it: a function registered after the option was created is found
+			late := eval.NewDefaultCtx()
+			opt := eval.EvalContext(late)
+			_ = late.SetFunc("registeredlate", func(x int) int { return x + 7 })
+			_ = late.SetFunc("abs", func(x int) int { return x - 1 })
+			c.Eval(1)
+			desc := fmt.Sprintf("Eval(\"res\", abs(registeredlate(col(%q)))) with an EvalContext option created before SetFunc", ic.name)
+			exprs = append(exprs, desc)
+			var res qframe.QFrame
+			if c.GuardFail("eval-ctx", desc, func() {
+				res = root.QF.Eval("res", qframe.Expr("abs", qframe.Expr("registeredlate", types.ColumnName(ic.name))), opt)
+			}) {
+				if res.Err != nil {
+					c.Fail("context-option-snapshot", "%s rejected: %v", desc, res.Err)
+				} else if got, oerr := model.ObserveGuard(res); oerr == nil {
+					gc := got.Col("res")
+					ok := gc != nil && gc.Kind == model.KInt
+					for r := 0; ok && r < n; r++ {
+						ok = gc.I[r] == src.I[r]+7-1
+					}
+					if !ok {
+						c.Fail("context-option-snapshot", "%s does not compute the functions registered in the context the option refers to", desc)
+					}
+				}
+			}
+		}
 		for _, nm := range []string{"onlyhere", "ui1"} {
 			c.Eval(1)
 			c.Nontrivial("ctx-unknown", nm, idKey(sh.IDs()))
